@@ -1269,7 +1269,7 @@ class BuilderSim:
         ch = self.ctx.ch
         t = T()
         kind = ch.pick(["dfg", "cfg", "conditional", "tailloop"], "detached-kind")
-        sub_feats = dict(self.features, insert=False, calls=False, poly=False)
+        sub_feats = dict(self.features, insert=False, poly=False)  # calls: only functions local to a region exist in a detached builder
         if kind == "conditional":
             sums = [w for w in a.live() if isinstance(w.ty, t.tys.Sum) and len(w.ty.variant_rows) >= 1]
             sw = ch.pick(sums, "cond-sum") if sums and ch.coin(2, 3, "existing-sum") else a.find(t.B)
@@ -1561,7 +1561,7 @@ def build_detached(ctx, kind):
     """A completed detached builder (own Hugr) of the given root kind, built by interleaved actors."""
     ch = ctx.ch
     feats = {"cond": ch.coin(1, 2, "f-cond"), "loop": ch.coin(1, 3, "f-loop"), "cfg": ch.coin(1, 3, "f-cfg"),
-             "calls": False, "poly": False, "meta": ch.coin(2, 3, "f-meta")}
+             "calls": True, "poly": False, "meta": ch.coin(2, 3, "f-meta")}
     sim = BuilderSim(ctx, root_kind=kind, features=feats, max_steps=5 + ch.draw(25, "max-steps"))
     sim.run()
     return sim
